@@ -13,13 +13,13 @@ TOK = {
     "esc_dot": ["%2E", "%2e"],
     "raw_nonascii": ["é", "ж", "中", "😀", "٣", "４"],
     "esc_utf8_up": ["%C3%A9", "%D0%B6", "%E4%B8%AD", "%F0%9F%98%80"],
-    "esc_utf8_lo": ["%c3%a9", "%d0%b6", "%e4%b8%ad", "%f0%9f%98%80"],
+    "esc_utf8_lo": ["%c3%a9", "%d0%b6", "%e4%b8%ad", "%f0%9f%98%80", "%C3%aB", "%c3%Ab"],
     "space_raw": [" "],
     "space_esc": ["%20"],
     "esc_reserved": ["%2F", "%3F", "%23", "%26", "%3D", "%40", "%3A", "%2B", "%3B", "%2C", "%2f", "%3f"],
     "esc_percent": ["%25"],
     "double": ["%2541", "%2520", "%252F", "%2525", "%25zz"],
-    "malformed": ["%", "%4", "%zz", "%%41", "%4G", "%%", "%g1", "%٣٤", "%4１"],
+    "malformed": ["%", "%4", "%zz", "%%41", "%4G", "%%", "%g1", "%٣٤", "%4１", "%4%31", "%2%46", "%%34%31", "%c%33"],
     "nonutf8": ["%E9", "%C3", "%FF", "%C3%28", "%e9", "%80", "%ED%A0%80", "%C0%AF"],
     "control": ["%00", "%0A", "%1F", "%7F", "%C2%80", "%C2%9F", "%09", "%0d", "%c2%85"],
     "plus": ["+"],
